@@ -44,7 +44,7 @@ var c10Trees = []c10Tree{
 	}},
 	{"big", true, func() *jen.Statement {
 		return jen.Func().Id("g").Params().BlockFunc(func(g *jen.Group) {
-			for i := 0; i < 400; i++ {
+			for i := 0; i < 1500; i++ {
 				g.Id(fmt.Sprintf("v%d", i)).Op(":=").Lit(strings.Repeat("x", 40))
 				g.Id("_").Op("=").Id(fmt.Sprintf("v%d", i))
 			}
@@ -59,7 +59,7 @@ var c10Trees = []c10Tree{
 	{"bad-keyword", false, func() *jen.Statement { return jen.Var().Var().Id("x") }},
 	{"bad-big", false, func() *jen.Statement {
 		return jen.Func().Id("g").Params().BlockFunc(func(g *jen.Group) {
-			for i := 0; i < 400; i++ {
+			for i := 0; i < 6000; i++ {
 				g.Id(fmt.Sprintf("v%d", i)).Op(":=").Lit(i)
 			}
 			g.Op(")")
